@@ -29,7 +29,8 @@ RULE = (
     "control/U+2028, ints in [-2^63, 2^64-1] with boundaries, finite floats incl. -0.0/subnormals/1e308, NaN/Inf, "
     "nesting chains to depth 200, texts of 4 KiB..300 KB around buffer-size boundaries, documented rich types Path/date/"
     "time/datetime/set/complex/tuple, custom json_default extensions incl. one that overrides eliot's encoding of set/"
-    "complex/Path) x file flavour (real temp file 'ab', 'a' utf-8, unbuffered 'wb', BytesIO, StringIO, TextIOWrapper) "
+    "complex/Path; consecutive messages that are equal in Python but different JSON (0.0/-0.0, 1/True/1.0) and the same "
+    "dict object offered again after an in-place change) x file flavour (real temp file 'ab', 'a' utf-8, unbuffered 'wb', BytesIO, StringIO, TextIOWrapper) "
     "x default/custom json_default. Non-trivial: the messages contain a non-ASCII or control character, a boundary "
     "number, nesting >= 3, or a rich type. Distinct = distinct canonical JSON of the case."
 )
@@ -48,9 +49,14 @@ class Proxy(object):
     def __init__(self, real):
         self._real = real
         self.calls = []
+        self.held = []
 
     def write(self, data):
-        self.calls.append(("write", data))
+        # keep what was handed over (by reference) and a snapshot of its content at call time:
+        # a file object may legitimately hold on to the argument (queueing transports do)
+        snap = bytes(data) if isinstance(data, (bytes, bytearray, memoryview)) else data
+        self.calls.append(("write", snap))
+        self.held.append((data, snap))
         return self._real.write(data)
 
     def flush(self):
@@ -185,12 +191,22 @@ def _check(case):
                     )
                 del p.calls[:]
             expected_total = b""
+            previous = None
             for spec in msgs:
-                message = V.decode(spec)
+                if isinstance(spec, dict) and spec.get(V.TAG) == "again-mutated":
+                    # the very same dict object, offered again after a nested value changed in place
+                    if previous is None or not isinstance(previous[0].get("nest"), list):
+                        continue
+                    previous[0]["nest"].append(spec["v"])
+                    previous[1]["nest"] = previous[1]["nest"] + [spec["v"]]
+                    message, spec = previous
+                else:
+                    message = V.decode(spec)
+                    previous = (message, dict(spec)) if isinstance(spec, dict) and isinstance(spec.get("nest"), list) else None
                 snapshot = canon(spec)
                 try:
                     dest(message)
-                    other_dest(V.decode(spec))
+                    other_dest(V.decode(spec) if message is not (previous or [None])[0] else dict(message))
                 except Exception as e:
                     raise Violation("raised", "FileDestination raised %r for message %s" % (e, canon(spec)[:300]))
                 calls = proxy.calls[:]
@@ -244,6 +260,9 @@ def _check(case):
                 require(snapshot == canon(spec), "harness", "spec mutated")
             if hasattr(f, "flush"):
                 pass
+            for ref, snap in proxy.held + other.held:
+                now = bytes(ref) if isinstance(ref, (bytes, bytearray, memoryview)) else ref
+                require(now == snap, "write-argument-mutated", lambda: "an object handed to file.write() was changed afterwards: %r -> %r" % (snap[:80], now[:80]))
             content = _content(kind, f, path)
             require(content == expected_total, "file-content", lambda: "file holds %r, writes were %r" % (content[:200], expected_total[:200]))
         finally:
@@ -270,11 +289,59 @@ def classify(case, info):
     if feats["depth"] >= 50:
         labels.append("nesting>=50")
     for r in feats["rich"]:
-        labels.append("rich:" + r)
+        if r != "again-mutated":
+            labels.append("rich:" + r)
+    if any(isinstance(m, dict) and m.get(V.TAG) == "again-mutated" for m in case["msgs"]):
+        labels.append("same-dict-again-after-mutation")
     if feats.get("big"):
         labels.append("message>=8KiB")
     nontrivial = bool(feats["nonascii"] or feats["control"] or feats["boundary"] or feats["depth"] >= 4 or feats["rich"])
     return nontrivial, labels
+
+
+def twin(spec):
+    """A message that is == in Python but a different JSON document (0.0/-0.0, 1/True/1.0)."""
+    def flip(v):
+        if isinstance(v, bool):
+            return int(v), True
+        if isinstance(v, int) and abs(v) < 2**52:
+            return float(v), True
+        if isinstance(v, float) and v == 0.0:
+            return -v, True
+        if isinstance(v, float) and v == int(v) and abs(v) < 2**52:
+            return int(v), True
+        if isinstance(v, list):
+            out, done = [], False
+            for x in v:
+                if not done:
+                    x, done = flip(x)
+                out.append(x)
+            return out, done
+        if isinstance(v, dict) and V.TAG not in v:
+            out, done = {}, False
+            for k, x in v.items():
+                if not done:
+                    x, done = flip(x)
+                out[k] = x
+            return out, done
+        return v, False
+
+    return flip(spec)[0]
+
+
+def with_twins(msgs, picks):
+    out = []
+    for i, m in enumerate(msgs):
+        out.append(m)
+        if i < len(picks) and picks[i] == 1:
+            out.append(twin(m))
+        elif i < len(picks) and picks[i] == 2:
+            out.append(dict(m))  # an equal message again
+        elif i < len(picks) and picks[i] == 3:
+            base = dict(m, nest=[1])
+            out[-1] = base
+            out.append({V.TAG: "again-mutated", "v": i})
+    return out
 
 
 def message_specs(custom):
@@ -285,9 +352,10 @@ def strategy():
     # small draws first: a large message list must not starve the later draws
     return st.one_of(
         st.builds(
-            lambda f, msgs: {"msgs": msgs, "file": f, "default": "eliot"},
+            lambda f, picks, msgs: {"msgs": with_twins(msgs, picks), "file": f, "default": "eliot"},
             st.sampled_from(FILE_KINDS),
-            st.lists(message_specs(False), min_size=1, max_size=4),
+            st.lists(st.sampled_from([0, 0, 1, 1, 2, 3]), max_size=4),
+            st.lists(st.one_of(message_specs(False), st.dictionaries(V.keys(), st.sampled_from([0, 0.0, -0.0, 1, True, 1.0, 3, 3.0, [0.0], {"z": 1}]), min_size=1, max_size=3)), min_size=1, max_size=4),
         ),
         st.builds(
             lambda f, d, msgs: {"msgs": msgs, "file": f, "default": d},
